@@ -1,14 +1,62 @@
 import PegVerif.Props.C01
+import PegVerif.Proofs.ForestLemmas
 /-
-  C03 — property theorems.  The refinement theorem R and its corollaries are added here as they are
-  proved; until then this property rests on C01's semantic facts plus the ties named in MANIFEST.json.
+  C03 — the token stream is the post-order record of the successful derivation only.
+
+  The derivation forest `f` of `Eval … (.ok p' f) evs` contains, by construction of the semantics,
+  only the rule applications / captures / actions of the successful derivation: nothing from a
+  failed alternative, an abandoned iteration or a lookahead (those appear only in `evs`).  The
+  theorems below say that the parser publishes exactly `postorderL f`.
 -/
 namespace PegVerif
 
-theorem C03_semantics_deterministic {G ρ inp e p r1 ev1 r2 ev2}
-    (h1 : Eval G ρ inp e p r1 ev1) (h2 : Eval G ρ inp e p r2 ev2) : r1 = r2 ∧ ev1 = ev2 :=
-  Eval_det h1 h2
+variable {P : Program} {cfg : Cfg} {env : CEnv} {G : Grammar} {inp : List Sym}
+
+/-- **C03**: after a successful parse from a fresh parser, `Tokens()` (the live prefix
+    `tree[:tokenIndex]`) is exactly the post-order of the derivation forest, for every run. -/
+theorem C03_tokens (hW : World P cfg env G inp) {n cr p' forest evs o s'}
+    (hfind : P.find n = some cr) (hev : Eval G cfg.rho inp (.name n) 0 (.ok p' forest) evs)
+    (hrun : Exec P cfg inp cr 0 St.init Frame.empty (o, s')) :
+    s'.tree.take s'.ti = postorderL forest ∧ s'.ti = (postorderL forest).length := by
+  have h := R_rule_all hW hfind hev rfl (Nat.zero_le _) (by simp [St.init]) (by simp [St.init]) hrun
+  obtain ⟨_, _, h2, h3, _⟩ := h
+  simp [St.init] at h2 h3
+  exact ⟨h3, h2⟩
+
+/-- Tokens written by attempts that were backtracked over never leak: a rule that fails leaves
+    the live prefix of its caller untouched, whatever it wrote beyond it. -/
+theorem C03_failed_rule_leaves_no_token (hW : World P cfg env G inp) {n cr p evs s o s'}
+    (hfind : P.find n = some cr) (hev : Eval G cfg.rho inp (.name n) p .fail evs)
+    (hpos : s.pos = p) (hple : p ≤ inp.length) (hlen : s.ti ≤ s.tree.length) (hm : s.memo = [])
+    (hrun : Exec P cfg inp cr 0 s Frame.empty (o, s')) :
+    s'.ti = s.ti ∧ s'.tree.take s.ti = s.tree.take s.ti := by
+  have h := R_rule_all hW hfind hev hpos hple hlen hm hrun
+  exact ⟨h.2.2.1, h.2.2.2.1⟩
+
+/-- The last token is the entry rule spanning exactly the consumed prefix. -/
+theorem C03_last_token {ρ n e p p' forest evs} (hb : G.body n = some (.ipush e n))
+    (h : Eval G ρ inp (.name n) p (.ok p' forest) evs) :
+    (postorderL forest).getLast? = some ⟨n, p, p'⟩ :=
+  postorder_last_is_rule hb h
+
+/-- Every recorded token spans what its sub-derivation consumed: the forest is well nested
+    inside `[p, p']` (offsets are rune indices because `inp` is the rune list). -/
+theorem C03_spans {ρ e p p' forest evs} (h : Eval G ρ inp e p (.ok p' forest) evs) :
+    WellNestedL p p' forest :=
+  Eval_wellNested h _ _ rfl
+
+/-- Non-vacuity: backtracking over a token (`A` inside a failed first alternative). -/
+def exG3 : Grammar := { rules := [
+  { name := "S", id := 0, body := .ipush (.alt [.seq [.name "A", .chr 98], .seq [.name "A", .chr 99]]) "S" },
+  { name := "A", id := 1, body := .ipush (.chr 97) "A" }] }
+
+example : Eval exG3 (fun _ _ => true) [97, 99] (.name "S") 0
+    (.ok 2 [.node ⟨"S", 0, 2⟩ [.node ⟨"A", 0, 1⟩ []]]) [⟨"A", 0, 1⟩, ⟨"A", 0, 1⟩, ⟨"S", 0, 2⟩] :=
+  evalF_sound 20 _ _ _ _ (by rfl)
 
 end PegVerif
 
-#print axioms PegVerif.C03_semantics_deterministic
+#print axioms PegVerif.C03_tokens
+#print axioms PegVerif.C03_failed_rule_leaves_no_token
+#print axioms PegVerif.C03_last_token
+#print axioms PegVerif.C03_spans
